@@ -195,6 +195,11 @@ class Check(CheckBase):
         cue_host = [h for h in host if h != "\xe9"]
         for t in tuples(cue_host, k):
             cases.append({"kind": "cdda", "names": t})
+        # very long titles that share a long prefix / have a dot or blank around position 200 (CDDA names are unbounded)
+        longs = ["L" * 205 + "a", "L" * 205 + "b", "x" * 199 + ". y", "x" * 199 + " .z", "w" * 240, "w" * 241 + "q"]   # (+ '.wav' stays under NAME_MAX)
+        for t in itertools.permutations(longs, 2):
+            cases.append({"kind": "cdda", "names": list(t)})
+        cases.append({"kind": "cdda", "names": longs})
         rol = []
         rhost = [h if h != ABS else ABS for h in host]
         for level in ("sample", "performance", "volume"):
